@@ -108,7 +108,9 @@ RealRes(n, d) ==
 MaxI(a, b) == IF a > b THEN a ELSE b
 RAdd(x, y) == LET d == MaxI(x.d, y.d) IN RealRes(x.n * (d \div x.d) + y.n * (d \div y.d), d)
 RSub(x, y) == LET d == MaxI(x.d, y.d) IN RealRes(x.n * (d \div x.d) - y.n * (d \div y.d), d)
-RMul(x, y) == IF x.d * y.d > 1024 THEN XUnk ELSE RealRes(x.n * y.n, x.d * y.d)
+RMul(x, y) == IF x.d * y.d > 1024 THEN XUnk
+              ELSE IF x.n * y.n = 0 /\ (x.n < 0 \/ y.n < 0) THEN NZero        \* IEEE: (+0) * (negative) = -0.0
+              ELSE RealRes(x.n * y.n, x.d * y.d)
 
 -----------------------------------------------------------------------------
 \* text <-> number literals (code points: '0' = 48, '-' = 45, '+' = 43, '.' = 46)
